@@ -40,7 +40,9 @@ func BuildPlan(cfg plan.Configuration, schema *graphql.Schema, opText, opName st
 		astnormalization.WithPrevalidationRules(
 			astvalidation.DeferStreamOnValidOperations(),
 			astvalidation.DeferStreamHaveUniqueLabels(),
+			astvalidation.DirectivesAreDefined(),
 			astvalidation.DirectivesAreInValidLocations(),
+			astvalidation.DirectivesAreUniquePerLocation(),
 			astvalidation.StreamAppliedToListFieldsOnly()),
 	)
 	if err != nil {
